@@ -175,9 +175,18 @@ def order_check(m, got, path='$'):
 
 
 # ---------------------------------------------------------------------------------------------
+class ListRef(Seq):
+    """An alias to an anchored merge list, used as a plain value: the list of the merged mappings, in its written order."""
+
+    def __init__(self, items, name):
+        Seq.__init__(self, items)
+        self.name = name
+
+
 class Gen:
     def __init__(self, r):
         self.r = r
+        self.lists = []             # (anchor name, sources) of anchored merge lists
         self.anchored = []          # closed, anchored Maps (usable as merge source / plain value)
         self.n = 0
         self.classes = set()
@@ -193,6 +202,10 @@ class Gen:
         if c < 0.6 and self.anchored:
             self.classes.add('source_as_plain_value')
             return Ref(r.choice(self.anchored))
+        if c < 0.64 and self.lists:
+            self.classes.add('merge_list_as_plain_value')
+            name, srcs = r.choice(self.lists)
+            return ListRef(srcs, name)
         if c < 0.75:
             return self.map(depth + 1)
         if c < 0.83:
@@ -224,9 +237,21 @@ class Gen:
         for _ in range(n):
             c = r.random()
             if c < 0.28 and depth < 3:
-                if r.random() < 0.35:
+                if self.lists and r.random() < 0.25:
+                    # the same (anchored) merge list again: every use must see it as it is written
+                    name, srcs = r.choice(self.lists)
+                    m.entries.append(('merge', srcs, True, '*' + name))
+                    self.classes.add('merge_list_reused')
+                elif r.random() < 0.35:
                     srcs = [self.source(depth) for _ in range(r.randint(0, 3))]
-                    m.entries.append(('merge', srcs, True))
+                    if srcs and all(isinstance(x, Ref) for x in srcs) and r.random() < 0.5:
+                        self.n += 1
+                        name = 'l%d' % self.n
+                        m.entries.append(('merge', srcs, True, name))
+                        self.lists.append((name, srcs))
+                        self.classes.add('merge_list_anchored')
+                    else:
+                        m.entries.append(('merge', srcs, True))
                     self.classes.add('merge_list')
                 else:
                     m.entries.append(('merge', [self.source(depth)], False))
@@ -254,6 +279,8 @@ def to_gdoc(v, inflow=False):
         return S(v.text, v.style)
     if isinstance(v, Ref):
         return A(v.target.anchor)
+    if isinstance(v, ListRef):
+        return A(v.name)
     if isinstance(v, Seq):
         return Q([to_gdoc(x, True) for x in v.items], True)
     if isinstance(v, Coll):
@@ -268,7 +295,12 @@ def to_gdoc(v, inflow=False):
             pairs.append((S(e[1].text, e[1].style), to_gdoc(e[2], fl)))
         else:
             srcs = [to_gdoc(s, True) if not isinstance(s, Map) else to_gdoc(s, True) for s in e[1]]
-            pairs.append((S('<<', 'plain'), Q(srcs, True) if e[2] else srcs[0]))
+            if len(e) > 3 and e[3].startswith('*'):
+                pairs.append((S('<<', 'plain'), A(e[3][1:])))
+            elif len(e) > 3:
+                pairs.append((S('<<', 'plain'), Q(srcs, True, None, e[3])))
+            else:
+                pairs.append((S('<<', 'plain'), Q(srcs, True) if e[2] else srcs[0]))
     return M(pairs, fl, None, v.anchor)
 
 
@@ -283,6 +315,9 @@ ILL = [('unhashable_key_seq', '{[a]: b}'), ('unhashable_key_map', '{{a: b}: c}')
        ('set_as_key', '? !!set {a}\n: v'), ('set_as_flow_key', '{!!set {a}: v}'), ('set_in_set', '!!set\n? !!set {a}\n'), ('set_alias_key', '- &s !!set {a, b}\n- {*s : v}'),
        ('set_alias_member', '- &s !!set {a}\n- !!set {*s : null}'), ('omap_as_key', '? !!omap [a: 1]\n: v'), ('pairs_as_key', '? !!pairs [a: 1]\n: v'),
        ('empty_seq_key', '{[]: v}'), ('empty_map_key', '{{}: v}'), ('set_key_with_merge', '- &m {x: 1}\n- {<<: *m, !!set {a}: v}'), ('nested_unhashable_deep', '{a: {b: {[c]: d}}}'),
+       ('set_on_empty_scalar', 's: !!set\n'), ('set_on_empty_quoted', '!!set ""'), ('set_on_empty_seq', '!!set []'), ('omap_on_empty_map', '!!omap {}'), ('omap_on_empty_scalar', 'o: !!omap\n'),
+       ('pairs_on_empty_map', '!!pairs {}'), ('pairs_on_empty_scalar', '!!pairs ""'), ('merge_empty_value', 'x:\n  <<:\n  a: 1\n'), ('merge_empty_quoted', '{<<: "", a: 1}'),
+       ('merge_list_empty_item', '{<<: [{a: 1}, ""]}'), ('merge_list_of_empty_seq', '{<<: [[]]}'), ('set_member_empty_seq', '!!set {? []}'),
        ('omap_item_empty_tagged', '!!omap [!!map {}]'), ('omap_item_null', '!!omap [~]'), ('pairs_item_null', '!!pairs [~]'), ('merge_list_empty_ok_control', '{<<: [], a: 1}')]
 
 
